@@ -10,6 +10,9 @@
 //                      handler) that performs the producer call at boundary k; prints the sorted set
 //                      of distinct outcomes  p<producer result>:<dequeue result>:<what a conf;deq
 //                      drain finds afterwards>.  The queue is unchanged afterwards.
+//   confpdu <hex>      C11: the bytes (first byte 1e) go through the real server::l2cap_input of a small
+//                      server whose link-layer callback forwards `confirmation` to indication_confirmed()
+//                      of the queue under test -> response PDU hex ("-" = none)
 //   stress <n>         2 threads hammering the real queue (non deterministic; reported only)
 #include "common/proto.hpp"
 #include <tuple>
@@ -22,6 +25,9 @@
 #define private public
 #include <bluetoe/notification_queue.hpp>
 #undef private
+#include <bluetoe/server.hpp>
+#include <bluetoe/service.hpp>
+#include <bluetoe/characteristic.hpp>
 
 namespace d = bluetoe::details;
 typedef std::pair< d::notification_queue_entry_type, std::size_t > entry_t;
@@ -220,8 +226,42 @@ static std::unique_ptr< queue_if > make( unsigned long long n )
     return std::unique_ptr< queue_if >();
 }
 
+// --- Handle Value Confirmation through the real ATT server ---------------------------------------
+static std::uint8_t ind_value = 0x42;
+typedef bluetoe::server<
+    bluetoe::service< bluetoe::service_uuid16< 0x1234 >,
+        bluetoe::characteristic< bluetoe::characteristic_uuid16< 0x1111 >,
+            bluetoe::bind_characteristic_value< std::uint8_t, &ind_value >, bluetoe::indicate > > > conf_server_t;
+
+struct conf_server : conf_server_t
+{
+    typedef conf_server_t::channel_data_t< bluetoe::details::link_state > con_t;
+    con_t con;
+    queue_if* target;
+
+    static bool callback( const bluetoe::details::notification_data&, void* self, bluetoe::details::notification_type type )
+    {
+        if ( type == bluetoe::details::notification_type::confirmation )
+            static_cast< conf_server* >( self )->target->conf();
+        return true;
+    }
+
+    conf_server() : target( nullptr ) { this->notification_callback( &conf_server::callback, this ); }
+
+    std::string input( const std::vector< std::uint8_t >& pdu, queue_if* q )
+    {
+        target = q;
+        std::unique_ptr< std::uint8_t[] > in( new std::uint8_t[ pdu.size() ] ), out( new std::uint8_t[ 23 ] );
+        std::copy( pdu.begin(), pdu.end(), in.get() );
+        std::size_t out_size = 23;
+        this->l2cap_input( in.get(), pdu.size(), out.get(), out_size, con );
+        return verif::to_hex( out.get(), out_size );
+    }
+};
+
 int main()
 {
+    conf_server att;
     struct sigaction sa;
     std::memset( &sa, 0, sizeof( sa ) );
     sa.sa_sigaction = trap_handler;
@@ -243,6 +283,12 @@ int main()
         if ( w[ 0 ] == "raw" && w.size() == 1 ) return q->raw();
         if ( w[ 0 ] == "irq" && w.size() == 3 && ( w[ 1 ] == "qn" || w[ 1 ] == "qi" ) && verif::parse_u64( w[ 2 ], v ) )
             return q->irq( w[ 1 ] == "qi", v );
+        if ( w[ 0 ] == "confpdu" && w.size() == 2 )
+        {
+            std::vector< std::uint8_t > pdu;
+            if ( !verif::parse_hex( w[ 1 ], pdu ) || pdu.empty() || pdu[ 0 ] != 0x1e ) return "bad-op";
+            return att.input( pdu, q.get() );
+        }
         if ( w[ 0 ] == "stress" && arg1 ) return q->stress( v );
         return "bad-op";
     } );
